@@ -14,9 +14,10 @@ Notation niname := N (only parsing).          (* 0 = the empty string *)
 (* which repairs of the pinned tree are present in the modelled code *)
 Record svariant := { fixF1 : bool  (* isNewMaster compares 128-bit values *);
                      fixF4 : bool  (* empty network instance: one FAILED, not two *);
-                     fixF9 : bool  (* doModify stops after a fatal error *) }.
-Definition sv_fixed := {| fixF1 := true; fixF4 := true; fixF9 := true |}.
-Definition sv_tree  := {| fixF1 := false; fixF4 := false; fixF9 := false |}.
+                     fixF9 : bool  (* doModify stops after a fatal error *);
+                     fixF17 : bool (* unknown redundancy / persistence enum numbers are rejected *) }.
+Definition sv_fixed := {| fixF1 := true; fixF4 := true; fixF9 := true; fixF17 := true |}.
+Definition sv_tree  := {| fixF1 := false; fixF4 := false; fixF9 := false; fixF17 := false |}.
 
 (* SessionParameters as enum numbers: redundancy 0 = ALL_PRIMARY, 1 = SINGLE_PRIMARY;
    persistence 0 = DELETE, 1 = PRESERVE; ack 0 = RIB_ACK, 1 = RIB_AND_FIB_ACK *)
@@ -115,19 +116,19 @@ Section Server.
   Definition consistent (c : cid) (p : cparams) (s : srv) : bool :=
     forallb (fun kv => (fst kv =? c) || cparams_eqb (s_params (snd kv)) p) (ss s).
 
+  Variable v : svariant.
+
   (* checkParams (server.go:556-621) then updateParams (519-540) *)
   Definition do_params (c : cid) (x : sess) (p : pmsg) (s : srv) : srv * out :=
     if s_gotmsg x then (s, out_end FailedPrecondition MODIFY_NOT_ALLOWED) else
     if (p_red p =? 0) && (p_pers p =? 1) then (s, out_end FailedPrecondition UNSUPPORTED_PARAMS) else
-    if p_red p =? 0 then (s, out_end Unimplemented UNSUPPORTED_PARAMS) else
-    if p_pers p =? 0 then (s, out_end Unimplemented UNSUPPORTED_PARAMS) else
+    if (if fixF17 v then negb (p_red p =? 1) else p_red p =? 0) then (s, out_end Unimplemented UNSUPPORTED_PARAMS) else
+    if (if fixF17 v then negb (p_pers p =? 1) else p_pers p =? 0) then (s, out_end Unimplemented UNSUPPORTED_PARAMS) else
     let cp := cp_of p in
     if negb (consistent c cp s) then (s, out_end FailedPrecondition PARAMS_DIFFER) else
     if s_set x then (upd_sess c {| s_params := cp; s_set := true; s_last := s_last x; s_gotmsg := s_gotmsg x |} s,
                      out_end FailedPrecondition MODIFY_NOT_ALLOWED) else
     (upd_sess c {| s_params := cp; s_set := true; s_last := s_last x; s_gotmsg := true |} s, out_resp RParamsOK).
-
-  Variable v : svariant.
 
   (* runElection (server.go:724-764) *)
   Definition do_elect (c : cid) (x : sess) (id : u128) (s : srv) : srv * out :=
